@@ -305,7 +305,7 @@ Section Lists.
     unfold addNodeInDocOrder. cbv beta iota. set (l := f :: l') in *.
     assert (HlastIn : In (last l dummy) l) by apply last_in.
     destruct (lnode_eqb (last l dummy) n) eqn:Elast.
-    - apply lnode_eqb_eq in Elast. rewrite <- Elast at 2. rewrite sinsert_dup; [reflexivity|assumption|assumption].
+    - apply lnode_eqb_eq in Elast. f_equal. symmetry. apply sinsert_dup; [assumption | rewrite <- Elast; assumption].
     - assert (Hf : indoc f) by (inversion Hl; assumption).
       assert (Hlast : indoc (last l dummy)) by (rewrite Forall_forall in Hl; apply Hl; assumption).
       assert (Fn : fst n = d) by (unfold indoc, in_doc in Hn; apply andb_true_iff in Hn; destruct Hn as [H _]; apply Nat.eqb_eq in H; exact H).
@@ -340,10 +340,10 @@ Section Lists.
     (forall m, In m (sfold ns l) <-> In m l \/ In m ns).
   Proof.
     induction ns as [|n ns IH]; intros l Hns Hl Hs; simpl.
-    - repeat split; try assumption; intuition.
+    - split; [assumption | split; [assumption|]]. intro m. intuition.
     - inversion Hns; subst.
       destruct (IH (sinsert W n l) H2 (sinsert_indoc n l H1 Hl) (sinsert_sorted n l H1 Hl Hs)) as (A & B & C).
-      repeat split; try assumption. intro m. rewrite C, sinsert_in by assumption. intuition.
+      split; [assumption | split; [assumption|]]. intro m. rewrite C, sinsert_in by assumption. intuition.
   Qed.
 
   Theorem add_history : forall ns l, Forall indoc ns -> Forall indoc l -> sorted W l = true ->
@@ -376,7 +376,7 @@ Section Lists.
     (forall m, In m (sort_dedup W l) <-> In m l).
   Proof.
     intros l Hl. destruct (sfold_props l [] Hl (Forall_nil _) eq_refl) as (A & B & C).
-    repeat split; try assumption; apply C in H; intuition.
+    split; [assumption | split; [assumption|]]. intro m. rewrite C. simpl. intuition.
   Qed.
 
   Lemma sort_dedup_ext : forall l1 l2, Forall indoc l1 -> Forall indoc l2 ->
